@@ -461,7 +461,7 @@ class TranscriptInterval(AbstractFeatureInterval):
             strand=chromosome_location.strand,
             cds_starts=[x.start for x in cds_chromosome_location.blocks] if cds else None,
             cds_ends=[x.end for x in cds_chromosome_location.blocks] if cds else None,
-            cds_frames=cds.frames if cds else None,
+            cds_frames=cds.chunk_relative_frames if cds else None,
             guid=guid,
             transcript_guid=transcript_guid,
             qualifiers=qualifiers,
